@@ -77,6 +77,12 @@ pub fn uncounted<R>(f: impl FnOnce() -> R) -> R {
 pub struct HostState {
     pub inputs: Vec<u64>,
     pub log: Vec<Ev>,
+}
+
+/// Tracking of drop-tracked values is process-wide: a value may be dropped on another
+/// thread than the one that created it (C11, C12).
+#[derive(Default)]
+pub struct Tracking {
     /// live tracked instances: id -> tag
     pub live: HashMap<u64, i32>,
     pub next_id: u64,
@@ -91,14 +97,21 @@ thread_local! {
     pub static HOST: RefCell<HostState> = RefCell::new(HostState::default());
 }
 
+pub static TRACK: std::sync::LazyLock<std::sync::Mutex<Tracking>> = std::sync::LazyLock::new(|| std::sync::Mutex::new(Tracking::default()));
+
+pub fn track<R>(f: impl FnOnce(&mut Tracking) -> R) -> R {
+    let mut g = TRACK.lock().unwrap_or_else(|e| e.into_inner());
+    f(&mut g)
+}
+
 pub fn reset(inputs: Vec<u64>) {
     uncounted(|| {
         HOST.with(|h| {
             let mut h = h.borrow_mut();
             h.inputs = inputs;
             h.log.clear();
-            h.anomalies.clear();
-        })
+        });
+        track(|t| t.anomalies.clear());
     })
 }
 
@@ -107,14 +120,11 @@ pub fn take_log() -> Vec<Ev> {
 }
 
 pub fn live_count() -> (usize, i64) {
-    HOST.with(|h| {
-        let h = h.borrow();
-        (h.live.len(), h.tz_live)
-    })
+    track(|t| (t.live.len(), t.tz_live))
 }
 
 pub fn anomalies() -> Vec<String> {
-    uncounted(|| HOST.with(|h| h.borrow().anomalies.clone()))
+    uncounted(|| track(|t| t.anomalies.clone()))
 }
 
 fn log_with(f: impl FnOnce() -> Ev) {
@@ -150,8 +160,7 @@ pub struct Tr {
 impl Tr {
     pub fn new(tag: i32) -> Tr {
         let id = uncounted(|| {
-            HOST.with(|h| {
-                let mut h = h.borrow_mut();
+            track(|h| {
                 h.next_id += 1;
                 let id = h.next_id;
                 h.live.insert(id, tag);
@@ -164,8 +173,7 @@ impl Tr {
     /// check that this instance is alive (called on every use)
     pub fn touch(&self, what: &str) {
         uncounted(|| {
-            HOST.with(|h| {
-                let mut h = h.borrow_mut();
+            track(|h| {
                 if self.magic != MAGIC {
                     h.anomalies.push(format!("{what}: use of garbage Tr (magic {:#x})", self.magic));
                 } else if !h.live.contains_key(&self.id) {
@@ -194,8 +202,7 @@ impl PartialEq for Tr {
 impl Drop for Tr {
     fn drop(&mut self) {
         uncounted(|| {
-            let _ = HOST.try_with(|h| {
-                let mut h = h.borrow_mut();
+            track(|h| {
                 if self.magic != MAGIC {
                     h.anomalies.push(format!("drop of garbage Tr (magic {:#x}, id {:#x})", self.magic, self.id));
                 } else if h.live.remove(&self.id).is_none() {
@@ -214,7 +221,7 @@ pub struct Tz;
 
 impl Tz {
     pub fn new() -> Tz {
-        HOST.with(|h| h.borrow_mut().tz_live += 1);
+        uncounted(|| track(|h| h.tz_live += 1));
         Tz
     }
 }
@@ -230,12 +237,13 @@ impl PartialEq for Tz {
 }
 impl Drop for Tz {
     fn drop(&mut self) {
-        let _ = HOST.try_with(|h| {
-            let mut h = h.borrow_mut();
-            h.tz_live -= 1;
-            if h.tz_live < 0 {
-                uncounted(|| h.anomalies.push("more Tz drops than creations".into()));
-            }
+        uncounted(|| {
+            track(|h| {
+                h.tz_live -= 1;
+                if h.tz_live < 0 {
+                    h.anomalies.push("more Tz drops than creations".into());
+                }
+            })
         });
     }
 }
